@@ -40,6 +40,23 @@ Struct(s) ==
                  SReturn(ATuple(<<AVar("cap"), AVar("d")>>))>>),
           SAssign(TVar("x"), AList(<<AVar("cap")>>))>>
 
+(* "factory": module A declares a list and two closure factories; module B (frozen next) calls them
+   and exports the closures and a list holding A's list; the importers use B's exports. *)
+FactoryA ==
+    <<SAssign(TVar("data"), AList(<<AInt(1), AInt(2), AInt(3)>>)),
+      SDef("make_app", <<AParam("tag", <<116>>)>>,
+           <<SDef("app", <<AParam("v", <<118>>)>>,
+                  <<SExpr(AMCall(AVar("data"), "append", <<AVar("v")>>)), SReturn(ATuple(<<AVar("tag"), AVar("data")>>))>>),
+             SReturn(AVar("app"))>>),
+      SDef("make_rd", <<AParam("tag", <<116>>)>>,
+           <<SDef("rd", <<>>, <<SReturn(ATuple(<<AVar("tag"), ACall(AVar("len"), <<AVar("data")>>), AVar("data")>>))>>),
+             SReturn(AVar("rd"))>>)>>
+FactoryB ==
+    <<SAssign(TVar("pad1"), AInt(7)), SAssign(TVar("pad2"), AStr(<<112>>)),
+      SAssign(TVar("fn"), ACall(AVar("make_app"), <<AStr(<<97>>)>>)),
+      SAssign(TVar("rdr"), ACall(AVar("make_rd"), <<AStr(<<114>>)>>)),
+      SAssign(TVar("x"), AList(<<AVar("data")>>))>>
+
 (* ---- paths from x to a reachable container: [e |-> expression, kind |-> "list" | "dict"] *)
 PP(e, kind) == [e |-> e, kind |-> kind]
 XV == AVar("x")
@@ -51,6 +68,7 @@ Paths(s) ==
     ELSE IF s = "dict" THEN {PP(XV, "dict"), PP(AIndex(XV, K(K_a)), "list"), PP(AIndex(XV, K(K_b)), "dict"),
                              PP(AIndex(AIndex(AIndex(XV, K(K_b)), K(K_c)), AInt(1)), "list")}
     ELSE IF s = "tuple" THEN {PP(AIndex(XV, AInt(0)), "list"), PP(AIndex(XV, AInt(1)), "dict")}
+    ELSE IF s = "factory" THEN {PP(AIndex(XV, AInt(0)), "list")}
     ELSE {PP(XV, "list"), PP(AIndex(XV, AInt(0)), "list"), PP(AVar("cap"), "list")}
 
 ListMuts == {"append", "extend", "insert", "pop", "remove", "clear", "setitem", "augadd", "augitem", "augvar"}
@@ -87,6 +105,7 @@ Probe(s) ==
       SEmit(ACall(AVar("len"), <<XV>>))>>
     \o (IF s = "cyclic" THEN <<>> ELSE <<SEmit(ACall(AVar("str"), <<XV>>)), SEmit(ACall(AVar("repr"), <<XV>>))>>)
     \o (IF s = "aliased" THEN <<SEmit(ABin("==", AIndex(XV, AInt(0)), AVar("sh")))>> ELSE <<>>)
+    \o (IF s = "factory" THEN <<SEmit(ACall(AVar("rdr"), <<>>))>> ELSE <<>>)
 ReadOps(T, kind) ==
     IF kind = "list" THEN
         <<SEmit(ACall(AVar("len"), <<T>>)),
@@ -106,14 +125,18 @@ ReadOps(T, kind) ==
 CallFnStmt == <<SEmit(ACall(AVar("fn"), <<AInt(5)>>))>>
 
 (* c: [s, p (path record), mut, two (BOOLEAN)] *)
-ChunkA(c) == Struct(c.s) \o Probe(c.s)
+ChunkA(c) == IF c.s = "factory" THEN FactoryA ELSE Struct(c.s) \o Probe(c.s)
+ChunkB(c) == IF c.s = "factory" THEN FactoryB \o Probe(c.s) ELSE <<>>
 Importer(c) == <<Probe(c.s), MutStmts(c.p.e, c.p.kind, c.mut), Probe(c.s), ReadOps(c.p.e, c.p.kind)>>
-                 \o (IF c.s = "closure" THEN <<CallFnStmt, Probe(c.s)>> ELSE <<>>)
+                 \o (IF c.s \in {"closure", "factory"} THEN <<CallFnStmt, Probe(c.s)>> ELSE <<>>)
 Mods(c) == IF c.two THEN <<Importer(c), Importer(c)>> ELSE <<Importer(c)>>
-Loaded(c) == IF c.s = "aliased" THEN <<"x", "sh">> ELSE IF c.s = "closure" THEN <<"x", "cap", "fn">> ELSE <<"x">>
+Loaded(c) == IF c.s = "aliased" THEN <<"x", "sh">> ELSE IF c.s = "closure" THEN <<"x", "cap", "fn">>
+             ELSE IF c.s = "factory" THEN <<"x", "fn", "rdr">> ELSE <<"x">>
+LoadedMid(c) == <<"data", "make_app", "make_rd">>
 
 Cases == {[s |-> s, p |-> p, mut |-> m, two |-> t] :
-             s \in {"nested", "aliased", "cyclic", "dict", "tuple", "closure"}, p \in UNION {Paths(s2) : s2 \in {"nested", "aliased", "cyclic", "dict", "tuple", "closure"}},
+             s \in {"nested", "aliased", "cyclic", "dict", "tuple", "closure", "factory"},
+             p \in UNION {Paths(s2) : s2 \in {"nested", "aliased", "cyclic", "dict", "tuple", "closure", "factory"}},
              m \in ListMuts \cup DictMuts, t \in BOOLEAN}
 Valid(c) == /\ c.p \in Paths(c.s)
             /\ (c.p.kind = "list" => c.mut \in ListMuts)
@@ -122,9 +145,11 @@ Valid(c) == /\ c.p \in Paths(c.s)
 VARIABLES case, done, exp
 Init == case \in {c \in Cases : Valid(c)} /\ done = FALSE /\ exp = <<>>
 Next == /\ ~done /\ done' = TRUE /\ UNCHANGED case
-        /\ exp' = RunFrozen(ChunkA(case), Mods(case), 50)
+        /\ exp' = IF case.s = "factory" THEN RunFrozenChain(ChunkA(case), ChunkB(case), Mods(case), 50)
+                   ELSE RunFrozen(ChunkA(case), Mods(case), 50)
         /\ PrintT(<<"CASE", ToJson([class |-> [s |-> case.s, kind |-> case.p.kind, mut |-> case.mut, two |-> case.two],
-                                    a |-> ChunkA(case), loaded |-> Loaded(case), mods |-> Mods(case), exp |-> exp'])>>)
+                                    a |-> ChunkA(case), mid |-> ChunkB(case), loaded_mid |-> LoadedMid(case),
+                                    loaded |-> Loaded(case), mods |-> Mods(case), exp |-> exp'])>>)
 Spec == Init /\ [][Next]_<<case, done, exp>>
 
 (* ---- the property on the specification itself *)
